@@ -322,6 +322,7 @@ type World struct {
 	Res     map[string]*Res
 	Names   []string
 	fresh   int
+	qfresh  int
 	Policy  map[string]Policy // key: cidx|token|name|query ; missing = default
 	Default Policy
 	Methods []string
